@@ -263,7 +263,7 @@ def reaching_defs(cfg: CFG, var: str, *, start, cut_back_edges_to=None):
 
 # ----------------------------------------------------------------------
 # counting events on paths
-def count_minmax(cfg: CFG, start, weight, *, stop=None, edge_ok=None, count_on_exc=None, start_edges=None):
+def count_minmax(cfg: CFG, start, weight, *, stop=None, edge_ok=None, count_on_exc=None, start_edges=None, back='terminal'):
     """Min and max number of events on any path from `start` to each terminal.
 
     weight(node) -> int : events performed by the node; counted on its *normal*
@@ -271,6 +271,8 @@ def count_minmax(cfg: CFG, start, weight, *, stop=None, edge_ok=None, count_on_e
     Back edges are cut (per-iteration / acyclic reading).  `stop(node_id)` true =>
     the path ends when *reaching* that node (its own weight is not counted).
     A path also ends at the exit nodes and where a back edge was cut.
+    back='skip': whole-function reading -- back edges are not terminals; loops without counted
+    events are collapsed, loops with counted events yield a ('loop', header) terminal with max INF.
     Returns dict terminal -> (min, max) where terminal is
     ('node', id) for a stop/exit node or ('back', src, dst) for a cut back edge.
     If an uncut cycle carries events the max is INF.
@@ -306,6 +308,12 @@ def count_minmax(cfg: CFG, start, weight, *, stop=None, edge_ok=None, count_on_e
                 continue
             add = w if (e.kind != 'exc' or (count_on_exc and count_on_exc(node))) else 0
             if (e.src, e.dst) in cfg.back_edges:
+                if back == 'skip':
+                    # whole-function reading: a loop that performs no counted event is collapsed;
+                    # one that does makes the count unbounded
+                    if any(weight(k) for k in cfg.nodes if e.dst in k.loops or k.id == e.dst):
+                        merge(out, ('loop', e.dst), add, INF)
+                    continue
                 merge(out, ('back', e.src, e.dst), add, add)
                 continue
             sub = go(e.dst)
